@@ -9,7 +9,7 @@ ID = "C09"
 LEVEL = "exploration"
 QUICK_RUNS = 3200
 RULE = ("Each run: drawn policy combination (TreeBandit+EpsilonGreedy(eps>0) excluded as the property says), drawn "
-        "n_jobs/backend, a history in tie-prone data regimes; at every query point two deep copies of the bandit "
+        "n_jobs/backend, a history (training, arm changes, warm_start) in tie-prone data regimes; at every query point two deep copies of the bandit "
         "answer predict and predict_expectations under the same per-operation schedule seed and every row must "
         "satisfy predict == first arm attaining the maximum (rows with NaN expectations: predict in arms).")
 EXPECTED_PROBES = ["probe.exact_tie_between_arms", "probe.nan_row", "sched.process_calls"]
@@ -27,7 +27,7 @@ def generate(rnd, tier, index=0):
     rkind = "binary" if (regime == "exact" and rnd.random() < 0.6) else None
     if cfg["lp"][0] == "ThompsonSampling":
         rkind = "binary"
-    ops = gen.gen_history(rnd, cfg, spare, d, regime, rnd.randint(3, 12), max_rows=10, rkind=rkind,
+    ops = gen.gen_history(rnd, cfg, spare, d, regime, rnd.randint(3, 12), max_rows=10, rkind=rkind, warm=True,
                           sched=lambda r, op: kernel.Sched.draw(r) if op["op"] in ("predict", "expect") else None,
                           arm_changes=not (cfg["np"] and cfg["np"][1].get("no_nhood_prob_of_arm")))
     return {"cfg": cfg, "regime": regime, "ops": ops}
